@@ -1,5 +1,6 @@
 import MoqModel.GenLemmas
 import MoqModel.ResolveShallow
+import MoqModel.ResolveFrame
 import MoqModel.Preds
 import MoqModel.SortLemmas
 /-
@@ -199,5 +200,35 @@ namespace Moq
 theorem c11_sorted (o : Ord) (fuel : Nat) (inp : Input) (a : Alloc) (h : genAlloc o fuel inp = .ok a) :
     SortedBy (·.path) a.reg.sortedImports :=
   sortBy_sorted (·.path) a.reg.imports (c11_once_not_self o fuel inp a h).1
+
+end Moq
+
+namespace Moq
+
+/-- **every alias of the import block, in every run** – any interfaces, flags, source aliases,
+    map-iteration order, conflicts cascading to any depth –: it is the alias the source files use
+    for that path, or a unique name `uniqueName path l` built from the package's *own* path.
+    (`resolve_frame`: `resolveImportConflict` never writes anything else; not `_partial`.) -/
+theorem c11_alias_shape (o : Ord) (fuel : Nat) (inp : Input) (a : Alloc) (h : genAlloc o fuel inp = .ok a) :
+    ∀ p ∈ a.reg.imports, p.alias = aliasOf a.reg.aliases p.path ∨ ∃ l, p.alias = uniqueName p.path l :=
+  genAlloc_aliasShape o fuel inp a h
+
+/-- consequently every *qualifier* is the package's name, its source alias, or one of its own
+    unique names: whatever makes those usable identifiers (WF.imports, clause D – a decidable
+    condition on the input) makes every qualifier of the output one -/
+theorem c11_qualifier_valid (o : Ord) (fuel : Nat) (inp : Input) (a : Alloc) (h : genAlloc o fuel inp = .ok a)
+    (ok : Str → Bool)
+    (hname : ∀ p ∈ a.reg.imports, ok p.name = true)
+    (hsrc : ∀ p ∈ a.reg.imports, aliasOf a.reg.aliases p.path ≠ [] → ok (aliasOf a.reg.aliases p.path) = true)
+    (huniq : ∀ p ∈ a.reg.imports, ∀ l, uniqueName p.path l ≠ [] → ok (uniqueName p.path l) = true) :
+    ∀ p ∈ a.reg.imports, ok p.qualifier = true := by
+  intro p hp
+  unfold Pkg.qualifier
+  split
+  · rename_i hne
+    rcases c11_alias_shape o fuel inp a h p hp with e | ⟨l, e⟩
+    · rw [e]; exact hsrc p hp (by rw [← e]; exact hne)
+    · rw [e]; exact huniq p hp l (by rw [← e]; exact hne)
+  · exact hname p hp
 
 end Moq
